@@ -8,8 +8,14 @@ from ..gen import J, JI
 PROP = "C02"
 MONITORS = ("WF", "DENS")
 REQUIRED_MONITORS = ("DENS",)
-ANCHORS = [("measure.py", 108, 117), ("measure.py", 203, 252), ("measure.py", 254, 262),
-           ("measure.py", 278, 292), ("pdf.py", 44, 51), ("utils/linalg.py", 8, 18)]
+ANCHORS = [("measure.py", "GaussianMeasure.compute_lnZ"),
+           ("measure.py", "GaussianMeasure.log_integral_light"),
+           ("measure.py", "GaussianMeasure.log_integral"),
+           ("measure.py", "GaussianMeasure.integral_light"),
+           ("measure.py", "GaussianMeasure.integral"), ("measure.py", "GaussianMeasure.normalize"),
+           ("measure.py", "GaussianMeasure.get_density"), ("pdf.py", "GaussianPDF.__post_init__"),
+           ("pdf.py", "GaussianDiagPDF.__post_init__"),
+           ("utils/linalg.py", "invert_matrix"), ("utils/linalg.py", "invert_diagonal")]
 RULE = ("cells: (a) measure kind x history (plain / product with each factor kind, both update_full "
         "/ hadamard / slice / queried) x R x D: all five mass read-outs against the closed form of the "
         "generator's parameters and, for D<=2, against Gauss-Hermite quadrature of the library's own "
